@@ -79,6 +79,10 @@ def run(rep, tier):
     classification(rep, F, tier)
     agreement(rep, F)
     proper_point(rep, F)
+    # every orientation sign line_intersection reads comes from the scalar's kernel: the two kernel bodies (shared with C03)
+    from . import c03
+    c03.kernel_bodies(rep, F, rule="R11.7")
+    c03.integer_kernel(rep, F, rule="R11.7")
 
 
 def exactness(rep, F):
